@@ -316,7 +316,7 @@ impl<L> ClientBuilder<L> {
 		let (send_receive_task_sync_tx, send_receive_task_sync_rx) = mpsc::channel(1);
 		let manager = ThreadSafeRequestManager::new();
 		#[cfg(feature = "verif-hooks")]
-		let verif_manager = manager.clone();
+		let verif_manager = Arc::downgrade(&manager.0);
 
 		let (ping_interval, inactivity_stream, inactivity_check) = match self.ping_config {
 			None => (IntervalStream::pending(), IntervalStream::pending(), InactivityCheck::Disabled),
@@ -394,7 +394,7 @@ impl<L> ClientBuilder<L> {
 		let (send_receive_task_sync_tx, send_receive_task_sync_rx) = mpsc::channel(1);
 		let manager = ThreadSafeRequestManager::new();
 		#[cfg(feature = "verif-hooks")]
-		let verif_manager = manager.clone();
+		let verif_manager = Arc::downgrade(&manager.0);
 
 		let ping_interval = PendingIntervalStream::pending();
 		let inactivity_stream = PendingIntervalStream::pending();
@@ -451,16 +451,20 @@ pub struct Client<L = RpcLogger<RpcService>> {
 	/// When the client is dropped a message is sent to the background thread.
 	on_exit: Option<oneshot::Sender<()>>,
 	service: L,
-	/// Handle to the shared request manager, kept only for the verification accessor below.
+	/// Weak handle to the shared request manager, kept only for the verification accessor below
+	/// (weak, so that the accessor doesn't change when the manager is dropped).
 	#[cfg(feature = "verif-hooks")]
-	verif_manager: ThreadSafeRequestManager,
+	verif_manager: std::sync::Weak<std::sync::Mutex<RequestManager>>,
 }
 
 #[cfg(feature = "verif-hooks")]
 impl<L> Client<L> {
 	/// Sizes of the client's four internal tables (requests, subscriptions, batches, notification handlers).
 	pub fn verif_table_sizes(&self) -> [usize; 4] {
-		self.verif_manager.lock().verif_table_sizes()
+		match self.verif_manager.upgrade() {
+			Some(m) => m.lock().expect(NOT_POISONED).verif_table_sizes(),
+			None => [0; 4],
+		}
 	}
 }
 
